@@ -154,6 +154,11 @@ inductive XStep : (P2P × TLState) → (P2P × TLState) → Prop
       (∀ g, g < s.sync.queues.length → (rget s.localConnectStatus g).disconnected = true →
         (rget s.localConnectStatus g).lastFrame ≤ lastFrame) →
       s.disconnectPlayerAtFrame now handle lastFrame = .ok s' → XStep (s, t) (s', t)
+  /-- the user submits a local player's input for the coming call (`add_local_input`) -/
+  | localInput (s : P2P) (t : TLState) (handle : Nat) (input : Input) :
+      XStep (s, t) ((s.addLocalInput handle input).1, t)
+  /-- the game fulfils `SaveGameState` requests: cells are written (any cell, any time; see `SStep.saves`) -/
+  | saves (s : P2P) (t : TLState) (saves : List (Frame × Option Nat)) : XStep (s, t) (s.userExecute saves, t)
 
 inductive XStar : (P2P × TLState) → (P2P × TLState) → Prop
   | refl (x : P2P × TLState) : XStar x x
@@ -209,6 +214,12 @@ theorem XInv_step (x y : P2P × TLState) (h : XInv x) (hs : XStep x y) : XInv y 
     obtain ⟨h', _⟩ := drop_specG s s' gh t [] st0 now handle addr lf ep h hpt hep hrem hl0 hlow
       (fun g hg hgg => hdead g hg (h.marks.mono g (h.tinv.sync.gone g hg hgg).dead)) hdrop
     exact ⟨gh, st0, h'⟩
+  | localInput s t handle input =>
+    obtain ⟨l, hl⟩ := P2P.addLocalInput_pending s handle input
+    show XInv ((s.addLocalInput handle input).1, t)
+    rw [hl]
+    exact ⟨gh, st0, SessInvD_pending s gh t [] st0 l h⟩
+  | saves s t sv => exact ⟨gh, st0, SessInvD_userExecute s gh t [] st0 sv h⟩
 
 /-- **L-drop.** The session invariant with dead players holds after every sequence of arrivals,
 calls and locally detected drops. -/
@@ -226,6 +237,8 @@ theorem XStar_of_SStar (x y : P2P × TLState) (h : SStar x y) : XStar x y := by
     cases hs with
     | remoteInput s s' t now inp player handles addr hnl h0 hev => exact XStep.remoteInput s s' t now inp player handles addr hnl h0 hev
     | tick s s' t now reqs' hadv => exact XStep.tick s s' t now reqs' hadv
+    | localInput s t handle input => exact XStep.localInput s t handle input
+    | saves s t sv => exact XStep.saves s t sv
 
 /-- **The prediction window with dead players.** If a call simulates a new frame `c`, every player
 that is still connected has real inputs at least up to frame `c - max_prediction`: the session
